@@ -75,7 +75,7 @@ func polOpt(pol string, node bool) []eventlogger.Option {
 	case "deny":
 		p = eventlogger.DenyOverwrite
 	default:
-		p = eventlogger.RegistrationPolicy("bogus")
+		p = invalidPolicy()
 	}
 	if node {
 		return []eventlogger.Option{eventlogger.WithNodeRegistrationPolicy(p)}
